@@ -120,6 +120,18 @@ pub fn field_layer(t: &mut Tally, seed: u64) {
     bytes_mod_order::<F65521>(t, "F65521", &mut rng);
     batch_inv::<F7>(t, "F7");
     batch_inv::<F101>(t, "F101");
+    // compile-time construction = run-time construction (C20): literals through the MontFp! / BigInt! macros of the tree under
+    // test (decimal with leading zeros, signs, hex / octal / binary prefixes, values >= p and >= 2p) and from_sign_and_limbs
+    literals(t);
+    for (p, name) in [(7u64, "F7"), (13, "F13"), (101, "F101"), (251, "F251")] { let _ = (p, name); }
+    sign_and_limbs::<C7, 1>(t, "F7"); sign_and_limbs::<C13, 1>(t, "F13"); sign_and_limbs::<C101, 1>(t, "F101"); sign_and_limbs::<C251, 1>(t, "F251");
+    sign_and_limbs::<CW2m127, 2>(t, "2^127-1"); sign_and_limbs::<CW2ns, 2>(t, "2^128-159"); sign_and_limbs::<CW4secp, 4>(t, "secp256k1 Fq");
+    // constants the derive macro computes, on every toy and wide field (incl. two-adicity 65): equal to their definitions
+    derived_consts::<F7>(t, "F7"); derived_consts::<F13>(t, "F13"); derived_consts::<F17>(t, "F17"); derived_consts::<F97>(t, "F97"); derived_consts::<F101>(t, "F101");
+    derived_consts::<F251>(t, "F251"); derived_consts::<F65521>(t, "F65521"); derived_consts::<F65537>(t, "F65537"); derived_consts::<FT34>(t, "two-adicity 34");
+    derived_consts::<FT47>(t, "two-adicity 47"); derived_consts::<W2t65>(t, "9*2^65+1 (two-adicity 65)"); derived_consts::<W2sp>(t, "W2sp"); derived_consts::<W2ns>(t, "2^128-159");
+    derived_consts::<W2m127>(t, "2^127-1"); derived_consts::<W2s2>(t, "2^126-137"); derived_consts::<W3ns>(t, "2^192-237"); derived_consts::<W4fr>(t, "BLS12-381 Fr");
+    derived_consts::<W4secp>(t, "secp256k1 Fq"); derived_consts::<W6fq>(t, "BLS12-381 Fq");
     // SAMPLED (not exhaustive): the generator's unrolled multi-limb code against integers
     multi_limb::<W2sp>(t, "derive N=2 spare bit", &mut rng);
     multi_limb::<W2ns>(t, "derive N=2 no spare bit", &mut rng);
@@ -227,6 +239,30 @@ pub fn sqrt_all(t: &mut Tally) {
     sqrt_ext(t, "F7^2", &all_fp2::<F7x2>());
     sqrt_ext(t, "F13^2", &all_fp2::<F13x2>());
     sqrt_ext(t, "F7^3", &all_fp3::<F7x3>());
+    sqrt_high_adicity::<FT34>(t, "p = 9223373256625487873 (two-adicity 34)");
+    sqrt_high_adicity::<FT40>(t, "p = 9223423713901281281 (two-adicity 40)");
+    sqrt_high_adicity::<FT47>(t, "p = 9229142273877344257 (two-adicity 47)");
+}
+
+/// SAMPLED (the fields have ~2^63 elements): the elements that drive Tonelli-Shanks through every loop depth -- all 2^k-th roots
+/// of unity (k = 0..s) and their products with small squares / non-squares -- plus 0, 1, -1, small integers
+fn sqrt_high_adicity<F: PrimeField>(t: &mut Tally, name: &str) {
+    let s = F::TWO_ADICITY;
+    let mut els: Vec<F> = vec![F::zero(), F::one(), -F::one()];
+    let mut w = F::TWO_ADIC_ROOT_OF_UNITY;
+    for _ in 0..=s { els.push(w); els.push(w * F::from(4u64)); els.push(w * F::from(9u64)); els.push(w * F::GENERATOR); w.square_in_place(); }
+    for k in 2..60u64 { els.push(F::from(k)); els.push(F::from(k).square()); }
+    let half = F::MODULUS_MINUS_ONE_DIV_TWO;
+    for a in &els {
+        let euler = a.pow(half);
+        let is_sq = a.is_zero() || euler.is_one();
+        match a.sqrt() {
+            Some(r) => t.check(is_sq && r.square() == *a, || format!("{name}: sqrt({a}) = {r} (square by Euler: {is_sq})")),
+            None => t.check(!is_sq, || format!("{name}: sqrt({a}) = None although {a} is a square")),
+        }
+        let l = a.legendre();
+        t.check(l.is_zero() == a.is_zero() && l.is_qr() == (is_sq && !a.is_zero()), || format!("{name}: legendre({a})"));
+    }
 }
 
 /// schoolbook product in F_p[X]/(X^k - beta) on coefficient vectors
@@ -240,6 +276,12 @@ fn schoolbook<F: PrimeField>(a: &[F], b: &[F], beta: F) -> Vec<F> {
     r
 }
 fn ext_checks<E: Field + CyclotomicMultSubgroup, F: PrimeField>(t: &mut Tally, name: &str, els: &[E], coords: impl Fn(&E) -> Vec<F>, beta: F, p: u64, all_pairs: bool) {
+    ext_checks_with(t, name, els, &coords, beta, p, all_pairs, p - 1, &|e: &E| { let mut v = coords(e); v.reverse(); v })
+}
+
+/// `proj_exp`: exponent projecting onto the cyclotomic subgroup; `ord_coords`: coordinates in the order the documented
+/// lexicographic comparison looks at them (most significant first)
+fn ext_checks_with<E: Field + CyclotomicMultSubgroup, F: PrimeField>(t: &mut Tally, name: &str, els: &[E], coords: &dyn Fn(&E) -> Vec<F>, beta: F, p: u64, all_pairs: bool, proj_exp: u64, ord_coords: &dyn Fn(&E) -> Vec<F>) {
     let k = coords(&els[0]).len();
     let q = (p as u128).pow(k as u32);
     for (i, a) in els.iter().enumerate() {
@@ -264,7 +306,7 @@ fn ext_checks<E: Field + CyclotomicMultSubgroup, F: PrimeField>(t: &mut Tally, n
         if !a.is_zero() {
             let mut y = *a;
             // project into the cyclotomic subgroup of order Phi_k(p): y = a^((q-1)/Phi_k(p)); for k = 2: a^(p-1); for k = 3: a^(p-1)
-            y = y.pow([p - 1]);
+            y = y.pow([proj_exp]);
             let mut inv = y;
             if inv.cyclotomic_inverse_in_place().is_some() {
                 t.check(inv * y == E::one() || !E::INVERSE_IS_FAST, || format!("{name}: cyclotomic_inverse({y})"));
@@ -281,8 +323,7 @@ fn ext_checks<E: Field + CyclotomicMultSubgroup, F: PrimeField>(t: &mut Tally, n
             t.check(coords(&s) == ca.iter().zip(&cb).map(|(x, y)| *x + y).collect::<Vec<_>>(), || format!("{name}: add"));
             t.check((*a == *b) == (ca == cb), || format!("{name}: eq"));
             // documented order: lexicographic from the highest coefficient
-            let mut ra = ca.clone(); ra.reverse();
-            let mut rb = cb.clone(); rb.reverse();
+            let (ra, rb) = (ord_coords(a), ord_coords(b));
             t.check(a.cmp(b) == ra.cmp(&rb), || format!("{name}: cmp ({a}) ({b})"));
         }
     }
@@ -302,4 +343,102 @@ pub fn ext_all(t: &mut Tally, _seed: u64) {
         let mut e = *a; e = e * a.pow([7u64]) * a.pow([49u64]);
         t.check(e.c1.is_zero() && e.c2.is_zero() && e.c0 == n, || format!("F7^3 norm({a})"));
     }
+    // degree-4 tower F_241[u]/(u^2 - 7)[w]/(w^2 - u) = F_241[w]/(w^4 - 7) (the Fp4 template): 241^4 elements, so a structured
+    // SAMPLE: basis elements, sparse elements, and seeded ones; coordinates by powers of w are (c0.c0, c1.c0, c0.c1, c1.c1)
+    {
+        use super::toy::mnt4a::{Fq, Fq2, Fq4};
+        let mut rng = crate::Rng(_seed.wrapping_mul(0x9E3779B97F4A7C15) | 1);
+        let f = |a: u64, b: u64, c: u64, d: u64| Fq4::new(Fq2::new(Fq::from(a), Fq::from(c)), Fq2::new(Fq::from(b), Fq::from(d)));
+        let mut els = vec![f(0, 0, 0, 0), f(1, 0, 0, 0), f(0, 1, 0, 0), f(0, 0, 1, 0), f(0, 0, 0, 1), f(240, 0, 0, 0), f(1, 1, 1, 1), f(5, 0, 7, 0), f(0, 3, 0, 9)];
+        for _ in 0..400 { els.push(f(rng.next() % 241, rng.next() % 241, rng.next() % 241, rng.next() % 241)); }
+        ext_checks_with::<Fq4, Fq>(t, "F241^4(Fp4 template)", &els, &|x| vec![x.c0.c0, x.c1.c0, x.c0.c1, x.c1.c1], Fq::from(7u64), 241, false, 241 * 241 - 1,
+            &|x| vec![x.c1.c1, x.c1.c0, x.c0.c1, x.c0.c0]);
+
+        // cubic template over a larger prime and the Fp6 = Fp3[w]/(w^2 - u) template (both from the toy MNT6 curve): sampled
+        use super::toy::mnt6a;
+        let g3 = |a: u64, b: u64, c: u64| mnt6a::Fq3::new(mnt6a::Fq::from(a), mnt6a::Fq::from(b), mnt6a::Fq::from(c));
+        let mut e3 = vec![g3(0, 0, 0), g3(1, 0, 0), g3(0, 1, 0), g3(0, 0, 1), g3(570, 0, 0), g3(1, 1, 1), g3(5, 0, 7)];
+        for _ in 0..300 { e3.push(g3(rng.next() % 571, rng.next() % 571, rng.next() % 571)); }
+        ext_checks::<mnt6a::Fq3, mnt6a::Fq>(t, "F571^3(beta=2)", &e3, |x| vec![x.c0, x.c1, x.c2], mnt6a::Fq::from(2u64), 571, false);
+        let mut e6 = vec![];
+        for k in 0..7usize { let mut c = [0u64; 6]; if k < 6 { c[k] = 1; } e6.push(mnt6a::Fq6::new(g3(c[0], c[2], c[4]), g3(c[1], c[3], c[5]))); }
+        for _ in 0..300 { e6.push(mnt6a::Fq6::new(g3(rng.next() % 571, rng.next() % 571, rng.next() % 571), g3(rng.next() % 571, rng.next() % 571, rng.next() % 571))); }
+        ext_checks_with::<mnt6a::Fq6, mnt6a::Fq>(t, "F571^6(Fp6 2-over-3 template)", &e6, &|x| vec![x.c0.c0, x.c1.c0, x.c0.c1, x.c1.c1, x.c0.c2, x.c1.c2], mnt6a::Fq::from(2u64), 571, false,
+            (571u64 * 571 * 571 - 1) * 572, &|x| vec![x.c1.c2, x.c1.c1, x.c1.c0, x.c0.c2, x.c0.c1, x.c0.c0]);
+    }
+}
+
+
+/// literals: what the macros compute at compile time against run-time arithmetic
+fn literals(t: &mut Tally) {
+    use ark_ff::{BigInt, MontFp};
+    let f = |x: u64| F101::from(x);
+    let cases: Vec<(&str, F101, F101)> = vec![
+        ("17", MontFp!("17"), f(17)), ("017", MontFp!("017"), f(17)), ("0017", MontFp!("0017"), f(17)), ("010", MontFp!("010"), f(10)), ("0", MontFp!("0"), f(0)),
+        ("00", MontFp!("00"), f(0)), ("-0", MontFp!("-0"), f(0)), ("-1", MontFp!("-1"), -f(1)), ("-0010", MontFp!("-0010"), -f(10)), ("100", MontFp!("100"), f(100)),
+        ("101", MontFp!("101"), f(0)), ("102", MontFp!("102"), f(1)), ("-101", MontFp!("-101"), f(0)), ("-102", MontFp!("-102"), -f(1)), ("-120", MontFp!("-120"), -f(19)),
+        ("203", MontFp!("203"), f(1)), ("-205", MontFp!("-205"), -f(3)), ("0x11", MontFp!("0x11"), f(17)), ("0X11", MontFp!("0X11"), f(17)), ("-0x11", MontFp!("-0x11"), -f(17)),
+        ("0o21", MontFp!("0o21"), f(17)), ("0b10001", MontFp!("0b10001"), f(17)), ("18446744073709551615", MontFp!("18446744073709551615"), f(u64::MAX)),
+        ("0x00000011", MontFp!("0x00000011"), f(17)),
+    ];
+    for (lit, got, want) in cases {
+        t.check(got == want, || format!("F101: MontFp!(\"{lit}\") = {got}, run-time value {want}"));
+    }
+    let w = |x: u128| W2m127::from(x);
+    let wide: Vec<(&str, W2m127, W2m127)> = vec![
+        ("2^127-1", MontFp!("170141183460469231731687303715884105727"), w(0)), ("2^127", MontFp!("170141183460469231731687303715884105728"), w(1)),
+        ("-(p+5)", MontFp!("-170141183460469231731687303715884105732"), -w(5)), ("2^64", MontFp!("18446744073709551616"), w(1 << 64)),
+        ("0x1_0000000000000000 written plainly", MontFp!("0x10000000000000000"), w(1 << 64)), ("-(2p+1) = -(2^128-1)", MontFp!("-340282366920938463463374607431768211455"), -w(1)),
+        ("leading zeros, 22222222222222222222", MontFp!("00022222222222222222222"), w(22222222222222222222u128)),
+    ];
+    for (lit, got, want) in wide {
+        t.check(got == want, || format!("2^127-1: literal {lit} = {got}, run-time value {want}"));
+    }
+    let b: Vec<(&str, BigInt<2>, [u64; 2])> = vec![
+        ("10", BigInt!("10"), [10, 0]), ("010", BigInt!("010"), [10, 0]), ("0x10", BigInt!("0x10"), [16, 0]), ("0o10", BigInt!("0o10"), [8, 0]), ("0b10", BigInt!("0b10"), [2, 0]),
+        ("18446744073709551616", BigInt!("18446744073709551616"), [0, 1]), ("0022222222222222222222", BigInt!("0022222222222222222222"), [3775478148512670606, 1]), ("0", BigInt!("0"), [0, 0]),
+    ];
+    for (lit, got, want) in b {
+        t.check(got.0 == want, || format!("BigInt!(\"{lit}\") = {:?}, expected {:?}", got.0, want));
+    }
+}
+
+/// from_sign_and_limbs (the run-time entry of negative literals): +-x mod p for limb patterns below, at and above p
+fn sign_and_limbs<C: ark_ff::MontConfig<N>, const N: usize>(t: &mut Tally, name: &str) {
+    use num_bigint::BigUint;
+    type Fe<C, const N: usize> = ark_ff::Fp<ark_ff::MontBackend<C, N>, N>;
+    let p = BigUint::from_bytes_le(&<Fe<C, N> as PrimeField>::MODULUS.to_bytes_le());
+    let big = |x: &Fe<C, N>| BigUint::from_bytes_le(&x.into_bigint().to_bytes_le());
+    let mut vals: Vec<BigUint> = (0u32..40).map(BigUint::from).collect();
+    for d in 0u32..4 { vals.push(&p - d.min(1) * 0u32 + d); if p > BigUint::from(d) { vals.push(&p - d); } vals.push(&p * 2u32 + d); }
+    vals.push((BigUint::from(1u8) << (64 * N)) - 1u8);
+    vals.push(BigUint::from(1u8) << (64 * N - 1));
+    for v in vals.iter().filter(|v| v.bits() as usize <= 64 * N) {
+        let mut limbs = v.to_u64_digits();
+        if limbs.is_empty() { limbs.push(0); }
+        let pos = Fe::<C, N>::from_sign_and_limbs(true, &limbs);
+        let neg = Fe::<C, N>::from_sign_and_limbs(false, &limbs);
+        let r = v % &p;
+        t.check(big(&pos) == r, || format!("{name}: from_sign_and_limbs(+, {v}) = {}", big(&pos)));
+        t.check(big(&neg) == (&p - &r) % &p && (neg + pos).is_zero(), || format!("{name}: from_sign_and_limbs(-, {v}) = {}", big(&neg)));
+    }
+}
+
+/// the constants of a derived configuration equal their definitions
+fn derived_consts<F: PrimeField>(t: &mut Tally, name: &str) {
+    use num_bigint::BigUint;
+    let p = BigUint::from_bytes_le(&F::MODULUS.to_bytes_le());
+    let pm1 = &p - 1u8;
+    let s = pm1.trailing_zeros().unwrap();
+    let tr = &pm1 >> s;
+    let lb = |l: &[u64]| { let mut b = vec![]; for x in l { b.extend_from_slice(&x.to_le_bytes()); } BigUint::from_bytes_le(&b) };
+    t.check(F::TWO_ADICITY as u64 == s, || format!("{name}: TWO_ADICITY = {} but v2(p-1) = {s}", F::TWO_ADICITY));
+    t.check(lb(F::TRACE.as_ref()) == tr && lb(F::TRACE_MINUS_ONE_DIV_TWO.as_ref()) == (&tr - 1u8) >> 1u32, || format!("{name}: TRACE constants"));
+    t.check(lb(F::MODULUS_MINUS_ONE_DIV_TWO.as_ref()) == &pm1 >> 1u32 && F::MODULUS_BIT_SIZE as u64 == p.bits(), || format!("{name}: (p-1)/2 or bit size"));
+    let w = F::TWO_ADIC_ROOT_OF_UNITY;
+    t.check(w == F::GENERATOR.pow(tr.to_u64_digits()), || format!("{name}: TWO_ADIC_ROOT_OF_UNITY != GENERATOR^TRACE"));
+    let mut x = w;
+    for _ in 1..s { x.square_in_place(); }
+    t.check(x == -F::one(), || format!("{name}: TWO_ADIC_ROOT_OF_UNITY does not have order 2^{s}"));
+    t.check(F::ONE.into_bigint() == F::BigInt::from(1u64) && F::ZERO.is_zero(), || format!("{name}: ONE / ZERO"));
 }
